@@ -76,15 +76,15 @@ Definition shapes : list node -> list (ashp tok) := ashapes kap0.
 Definition kap1 (c : cls) (ty : ttype) (v : text) : tok * kind := (skey (ty, v), kind_of c (Leaf ty v)).
 Definition gshape (c : cls) : node -> ashp (tok * kind) := ashape (kap1 c).
 
-(* classification of a leaf from its C11 annotation alone: Token.match against M_OPEN / M_CLOSE with
-   the KEY in place of the upper-cased value *)
+(* classification of a leaf from its C11 annotation alone: Token.match against M_OPEN / M_CLOSE computed
+   from the KEY (Token.normalized = ' '.join(value.upper().split()) depends on the value only through it) *)
 Definition key_match (k : tok) (p : pat) : bool :=
   ttype_eqb (fst k) (fst p) &&
   match snd p with
   | None => true
   | Some vals =>
       if tin (fst k) T_Keyword
-      then existsb (text_eqb (snd k)) (map upper vals)
+      then existsb (text_eqb (join_split space_set (snd k))) (map upper vals)
       else existsb (text_eqb (snd k)) vals
   end.
 Definition kd0 (c : cls) (k : tok) : kind :=
